@@ -191,3 +191,84 @@ where E: Probe + core::str::FromStr<Err = X>, X: ErrProbe {
     let c = user_err_take();
     enc_result(&r, &c)
 }
+
+// ------------------------------------------------------------------ format-spec grid
+/// (fill, align, width, precision): align 'n' = none given
+pub type Spec = (char, char, usize, Option<usize>);
+macro_rules! f2 {
+    ($a:literal, $b:literal, $x:expr, $w:expr, $p:expr) => {
+        match $p { None => format!($a, $x, $w), Some(p) => format!($b, $x, $w, p) }
+    };
+}
+pub fn fmt_spec<T: core::fmt::Display + ?Sized>(x: &T, s: Spec) -> String {
+    let (fill, align, w, p) = s;
+    match (fill, align) {
+        (' ', 'n') => f2!("{:1$}", "{:1$.2$}", x, w, p),
+        (' ', '<') => f2!("{:<1$}", "{:<1$.2$}", x, w, p),
+        (' ', '^') => f2!("{:^1$}", "{:^1$.2$}", x, w, p),
+        (' ', '>') => f2!("{:>1$}", "{:>1$.2$}", x, w, p),
+        ('*', '<') => f2!("{:*<1$}", "{:*<1$.2$}", x, w, p),
+        ('*', '^') => f2!("{:*^1$}", "{:*^1$.2$}", x, w, p),
+        ('*', '>') => f2!("{:*>1$}", "{:*>1$.2$}", x, w, p),
+        ('é', '<') => f2!("{:é<1$}", "{:é<1$.2$}", x, w, p),
+        ('é', '^') => f2!("{:é^1$}", "{:é^1$.2$}", x, w, p),
+        ('é', '>') => f2!("{:é>1$}", "{:é>1$.2$}", x, w, p),
+        _ => panic!("spec not in grid"),
+    }
+}
+pub fn grid() -> Vec<Spec> {
+    let dense = std::env::var("VERIF_GRID").map(|v| v == "thorough").unwrap_or(false);
+    let widths: Vec<usize> = if dense { (0..=16).collect() } else { vec![0, 1, 2, 5, 9, 16] };
+    let precs: Vec<Option<usize>> = if dense { std::iter::once(None).chain((0..=8).map(Some)).collect() } else { vec![None, Some(0), Some(1), Some(3), Some(8)] };
+    let mut g = Vec::new();
+    for (f, a) in [(' ', 'n'), (' ', '<'), (' ', '^'), (' ', '>'), ('*', '<'), ('*', '^'), ('*', '>'), ('é', '<'), ('é', '^'), ('é', '>')] {
+        for w in &widths { for p in &precs { g.push((f, a, *w, *p)); } }
+    }
+    g
+}
+pub fn jspecs(g: &[Spec]) -> String {
+    let v: Vec<String> = g.iter().map(|(f, a, w, p)| format!("{{\"fill\":{},\"align\":\"{}\",\"width\":{},\"prec\":{}}}", *f as u32, a, w, p.map(|x| x as i64).unwrap_or(-1))).collect();
+    jlist(&v)
+}
+/// the value and a reference string (its plain `{}` rendering) under every spec of the grid
+pub fn fmt_event<T: core::fmt::Display>(o: &mut Out, def: u32, i: usize, x: &T) {
+    let g = grid();
+    let name = format!("{}", x);
+    let outs: Vec<String> = g.iter().map(|s| jcps(&fmt_spec(x, *s))).collect();
+    let stds: Vec<String> = g.iter().map(|s| jcps(&fmt_spec(name.as_str(), *s))).collect();
+    o.line(&format!("{{\"op\":\"fmt\",\"def\":{},\"i\":{},\"specs\":{},\"outs\":{},\"std\":{}}}", def, i, jspecs(&g), jlist(&outs), jlist(&stds)));
+}
+/// extra flag combinations (sign, zero padding, alternate) - only compared outer vs inner
+macro_rules! extra_specs {
+    ($x:expr) => {
+        vec![format!("{:+}", $x), format!("{:08}", $x), format!("{:+08}", $x), format!("{:#}", $x), format!("{:>+6}", $x),
+             format!("{:#^9}", $x), format!("{:<08}", $x), format!("{:0<+7.1}", $x)]
+    };
+}
+/// the outer value and its inner value under every spec of the grid plus the extra flag combinations
+pub fn fwd_event<T: core::fmt::Display, U: core::fmt::Display + ?Sized>(o: &mut Out, def: u32, i: usize, x: &T, inner: &U) {
+    let g = grid();
+    let mut a: Vec<String> = g.iter().map(|s| jcps(&fmt_spec(x, *s))).collect();
+    let mut b: Vec<String> = g.iter().map(|s| jcps(&fmt_spec(inner, *s))).collect();
+    a.extend(extra_specs!(x).iter().map(|s| jcps(s)));
+    b.extend(extra_specs!(inner).iter().map(|s| jcps(s)));
+    o.line(&format!("{{\"op\":\"fwd\",\"def\":{},\"i\":{},\"what\":\"display\",\"outer\":{},\"inner\":{}}}", def, i, jlist(&a), jlist(&b)));
+}
+pub fn fwd_str_event(o: &mut Out, def: u32, i: usize, what: &str, outer: &str, inner: &str) {
+    o.line(&format!("{{\"op\":\"fwd\",\"def\":{},\"i\":{},\"what\":\"{}\",\"outer\":[{}],\"inner\":[{}]}}", def, i, what, jcps(outer), jcps(inner)));
+}
+
+/// from_str(s).to_string() for every input that ends up in a default (catch-all) variant
+pub fn capture_batch<E, X>(o: &mut Out, def: u32, ins: &[String])
+where E: Probe + core::fmt::Display + core::str::FromStr<Err = X>, X: ErrProbe {
+    let mut ts: Vec<String> = Vec::with_capacity(ins.len());
+    for s in ins {
+        let r = catch(|| match <E as core::str::FromStr>::from_str(s) {
+            Ok(v) if v.captured().is_some() => Some(v.to_string()),
+            _ => None,
+        });
+        ts.push(match r { Ok(Some(t)) => format!("[{}]", jcps(&t)), Ok(None) => "[]".to_string(), Err(p) => format!("[{},{}]", jcps("panic"), jcps(&p)) });
+    }
+    let ins_j: Vec<String> = ins.iter().map(|s| jcps(s)).collect();
+    o.line(&format!("{{\"op\":\"caprt\",\"def\":{},\"ins\":{},\"ts\":{}}}", def, jlist(&ins_j), jlist(&ts)));
+}
